@@ -191,7 +191,7 @@ def run(ctx):
     ctx.rule = RULE
     rng = ctx.rng
     pool = []
-    n_names = ctx.n(6000, 400000)
+    n_names = ctx.n(6000, 1600000)
     # fixed boundary corpus
     corpus = [[], [b'\x08\x00'], [b'\x08\x00', b'\x08\x00'], [rc.comp(8, b'a'), b'\x08\x00'],
               [b'\x08\x00', rc.comp(8, b'a')], [rc.comp(8, b'.')], [rc.comp(8, b'..')], [rc.comp(8, b'...')],
@@ -233,7 +233,7 @@ def run(ctx):
         elif rng.random() < 0.05:
             pool[rng.randrange(len(pool))] = comps
     # pairs
-    n_pairs = ctx.n(12000, 600000)
+    n_pairs = ctx.n(12000, 2400000)
     for i in range(n_pairs):
         k = rng.random()
         b = pool[rng.randrange(len(pool))]
